@@ -87,7 +87,7 @@ def generate(master, index, tier):
             "validate": rng.choice((0, 1)),
             "parsed": rng.random() < 0.9,
             "labelmsm": rng.choice((1, 2)),
-            "handler": rng.random() < 0.5,
+            "handler": rng.choice((False, False, "method", "function", "collector", "falsy")),
         },
         "sched": sched,
     }
@@ -152,8 +152,7 @@ def execute(scn):
         st.link.budget_per_fault = 10
     o = scn["opts"]
     lib = W.lib_exceptions()
-    calls = []
-    kw = {"errorhandler": calls.append} if o.get("handler") else {}
+    kw, calls = W.make_handler(o.get("handler"))
     viol = None
     events = []
     try:
